@@ -283,7 +283,8 @@ pub fn templates(thorough: bool) -> Vec<Template> {
     let jump = if thorough { 180 } else { 65 };
     let mut out = vec![];
     out.push(Template::new("naive", format!("TzLocation::naive on a zone with one symbolic transition (offset jump <= {jump} min), input in another such zone"), move || naive_is_wall_clock(jump)));
-    out.push(Template::new("datetime", format!("TzLocation::datetime on every wall-clock minute around one symbolic transition (gap / fold <= {jump} min)"), move || datetime_maps_back(jump)));
+    let dt_jump = if thorough { 180 } else { 200 };
+    out.push(Template::new("datetime", format!("TzLocation::datetime on every wall-clock minute around one symbolic transition (gap / fold <= {dt_jump} min)"), move || datetime_maps_back(dt_jump)));
     if thorough {
         // zones that skipped a whole day (Pacific/Apia 2011-12-30): gaps up to 25 hours
         out.push(Template::new("datetime_day_gap", "TzLocation::datetime around one symbolic transition with a gap / fold of up to 1500 min".to_string(), move || datetime_maps_back(1500)));
